@@ -20,7 +20,7 @@ ToSet(s) == {s[i] : i \in DOMAIN s}
 AllowIds == IF "ALLOW" \in DOMAIN IOEnv THEN IOEnv.ALLOW ELSE ""
 Allow == {id \in {"KF-C05-notlonger", "KF-C14-envelope"} : \E i \in 1..(Len(AllowIds) - Len(id) + 1) : SubSeq(AllowIds, i, i + Len(id) - 1) = id}
 
-CfgOf(r) == [peers |-> ToSet(r.cfg.peers), lastN |-> r.cfg.lastN, allow |-> Allow]
+CfgOf(r) == [peers |-> ToSet(r.cfg.peers), lastN |-> r.cfg.lastN, allow |-> Allow, msgTimeout |-> 60, refreshLag |-> 8]
 
 LcKinds == {"GetLastState", "GetLastStateProof"}
 SentOf(r) == {m \in ToSet(r.out.sent) : m.kind \in LcKinds}
